@@ -294,6 +294,7 @@ PROPS = {
         "units": [
             {"pkg": "./c02", "shards": 6, "shards_thorough": 16, "timeout": 300},
             {"pkg": "./c02c", "race": True, "shards": 2, "shards_thorough": 4, "timeout": 300},
+            {"pkg": "./sysbin", "run": "^TestC02", "shards": 1, "shards_thorough": 2, "timeout": 300},
             {"pkg": "./mainpkg", "run": "^TestC02b|^TestC02Pipeline", "shards": 2, "shards_thorough": 4, "timeout": 300},
         ],
         "fuzz": [{"pkg": "./c02", "target": "FuzzC02NewTable", "time": "300s"}],
